@@ -128,6 +128,36 @@ def worker(arg):
                     c = gen.new_case(f, mode, ops, "form")
                     cases.append(c)
                     meta.append(("form", fi, mode, "mem" if want_mem else "reg"))
+                    # the decorations the database gives the form are part of what "implemented" means
+                    deco = []
+                    unimplemented_ext = bool(set(f.get("ext") or {}) & {"AVX10_2", "APX_F"})   # this release only encodes their VEX siblings
+                    if f.get("kmask") and not unimplemented_ext:
+                        deco.append(("k", 0, ("k", 1 + (fi % 7))))
+                        if f.get("zmask"):
+                            deco.append(("kz", G.OPT_ZMASK, ("k", 1 + (fi % 7))))
+                    # {er}/{sae} exist for the 512-bit member of an xyz group and for scalar (LIG) forms only; the database
+                    # dump flags all three members of a group
+                    er_applies = (f.get("opcode") or {}).get("l", "").upper() in ("LIG", "512") or any(o.get("reg") == "zmm" for o in f["operands"])
+                    if not want_mem and not any(op[0] == "M" for op in ops) and not unimplemented_ext and er_applies:
+                        if f.get("er"):
+                            deco.append(("er", G.OPT_ER | [G.OPT_RN, G.OPT_RD, G.OPT_RU, G.OPT_RZ][fi % 4], None))
+                        if f.get("sae"):
+                            deco.append(("sae", G.OPT_SAE, None))
+                    if want_mem and f.get("broadcast") and not unimplemented_ext:
+                        for oi, o in enumerate(f["operands"]):
+                            if o["mem"] and (o.get("bcstSize") or -1) > 0 and ops[oi][0] == "M":
+                                nb = {2: 1, 4: 2, 8: 3, 16: 4, 32: 5, 64: 6}.get(o["memSize"] // o["bcstSize"])
+                                if nb:
+                                    bops = list(ops)
+                                    bm = dict(ops[oi][1])
+                                    bm["bcst"] = nb
+                                    bm["size"] = o["bcstSize"] // 8
+                                    bops[oi] = ("M", bm)
+                                    cases.append(gen.new_case(f, mode, bops, "form-bcst"))
+                                    meta.append(("form", fi, mode, "bcst"))
+                    for tag, opts, extra in deco:
+                        cases.append(gen.new_case(f, mode, list(ops), "form-" + tag, opts, extra))
+                        meta.append(("form", fi, mode, ("mem-" if want_mem else "reg-") + tag))
                     if not want_mem:
                         muts = mutations(gen, f, mode, ops, rng)
                         if nmut and len(muts) > nmut:
@@ -179,7 +209,7 @@ def worker(arg):
             viol.append(("validation-enables-encoding:%s" % f["name"], "emit fails (%d) without validation but succeeds with it: %s" % (e_off, line), line))
         if kind == "form":
             if e_on == 0:
-                accepted.append((form_key(f), mode, tag))
+                accepted.append((form_key(f) + ("" if tag in ("reg", "mem") else "|+" + tag.split("-")[-1]), mode, tag))
                 stats["form_accepted"] += 1
                 if e_off != 0:
                     pass
